@@ -40,6 +40,7 @@ type loadSpec struct {
 	MaxSteps  int64
 	XCheck    bool
 	Fixed     map[string]uint64
+	Solver    string
 }
 
 func absVerif(p string) string {
@@ -148,12 +149,14 @@ func loadFlags(fs *flag.FlagSet) func() *loadSpec {
 	ms := fs.Int64("maxsteps", 20000000, "instruction budget per path")
 	xc := fs.Bool("xcheck", false, "record assertion queries for cross-checking")
 	fix := fs.String("fix", "", "JSON object of inputs forced to concrete values")
+	solv := fs.String("solver", "", "solver binary (z3, z3-new)")
 	return func() *loadSpec {
 		ls := &loadSpec{Dir: *dir, Pkg: *pkg, Fn: *fn, TimeoutMS: *to, MaxSteps: *ms, XCheck: *xc,
 			Params: map[string]int{}, Overrides: parseKV(*ovr)}
 		if *files != "" {
 			ls.Files = strings.Split(*files, ",")
 		}
+		ls.Solver = *solv
 		if *fix != "" {
 			if err := json.Unmarshal([]byte(*fix), &ls.Fixed); err != nil {
 				fatal("-fix: %v", err)
